@@ -445,3 +445,12 @@ def r9(ctx):
                 yield VIOL("C03-R9", key, "%s::%s does not hand back self.%s as stored: %s" % (ty.split("::")[-1], nm, nm, "; ".join(probs)), where=loc(a.j["span"]))
             else:
                 yield PASS("C03-R9", key, "returns a view of self.%s, no condition" % nm, [loc(a.j["span"])])
+
+
+@M.rule("C03-R10", "header-carrier text is the header's bytes widened one by one (shared with C02-R9)")
+def r_latin1(ctx):
+    import c02
+
+    for r in c02.r9(ctx):
+        r.rule = "C03-R10"
+        yield r
